@@ -93,6 +93,10 @@ def to_float_array(nest):
     return np.array(rec(nest), dtype=float)
 
 
+def axis_unit_of(cfg, a):
+    return drive.axis_unit(cfg, a)
+
+
 def dims_of(cfg):
     return [len(f) - 1 for f in cfg["faces"]]
 
@@ -589,6 +593,42 @@ def observe(cfg, want):
             MbcS, RbcS = P.boundaryConditionsTerm(bcs)
             obs["MbcS"] = mat_entries(MbcS, c.dims)
             obs["RbcS"] = vec_nested(RbcS, c.dims)
+        if "celllocs" in W:
+            locs = P.cellLocations(c.m)
+            locs = [locs] if d == 1 else list(locs)
+            obs["celllocs"] = [lift.lift_array(np.asarray(x._value) / axis_unit_of(cfg, a))[0] for a, x in enumerate(locs)]
+        if "facelocs" in W:
+            fl = P.faceLocations(c.m)
+            fl = [fl] if d == 1 else list(fl)
+            obs["facelocs"] = [[lift.lift_array(np.asarray(comp, dtype=float))[0]
+                                for comp in (X._xvalue, X._yvalue, X._zvalue)[:d]] for X in fl]
+        if "gradfixed" in W:
+            obs["gradfixed"] = face_nested(P.gradientTermFixedBC(newphi()), d)
+        if "facector_scalar" in W:
+            obs["facector_scalar"] = face_nested(P.FaceVariable(c.m, float(dec(cfg["const"]))), d)
+            tup = tuple(float(dec(q)) for q in cfg["lin_beta"])
+            obs["facector_tuple"] = face_nested(P.FaceVariable(c.m, tup), d)
+        if "utility" in W:
+            from pyfvtool.boundary import BoundaryFace
+            rows = []
+            for method, args, rev in (("defaultNoFlux", (), False), ("fixedValue", (3.0,), False),
+                                      ("fixedGradient", (2.0, 1.0), False), ("fixedGradient", (-1.5, 4.0), False),
+                                      ("newtonCooling", (2.0, 3.0, 5.0), False), ("newtonCooling", (2.0, 3.0, 5.0), True)):
+                f = BoundaryFace(np.array([7.0, 7.0]), np.array([7.0, 7.0]), np.array([7.0, 7.0]))
+                if method == "newtonCooling":
+                    f.newtonCooling(*args, reverse_direction=rev)
+                elif method == "fixedGradient":
+                    f.fixedGradient(args[0], scale_coeffs=args[1])
+                else:
+                    getattr(f, method)(*args)
+                xyz = list(args) + [0.0] * (3 - len(args))
+                rows.append({"method": method, "x": lift.lift_enc(xyz[0]), "y": lift.lift_enc(xyz[1]), "z": lift.lift_enc(xyz[2]),
+                             "rev": rev, "abc": [lift.lift_enc(f.a[1]), lift.lift_enc(f.b[0]), lift.lift_enc(f.c[1])]})
+            obs["utility"] = rows
+        if "integral" in W:
+            import math
+            e = {"CylindricalGrid1D": 1, "SphericalGrid1D": 1, "CylindricalGrid2D": 1, "SphericalGrid3D": -1}.get(cfg["cls"], 0)
+            obs["integral"] = lift.lift_enc(newphi().domainIntegral() / math.pi ** e)
         if "r_source" in W:
             # beta*phi = gamma alone: cell-local solution gamma/beta (beta shifted by one to be non-zero)
             vs_ = P.CellVariable(c.m, 0.0)
